@@ -114,6 +114,12 @@ static void ref_expect(cfg_t *ctx, struct pexp *x)
 		return;
 	}
 	if (T == -1) {
+#ifdef FORCE_OPT
+		if (PSTATE == 0) { /* the end of a default value string, scanned at level 1 */
+			x->kind = X_EOF;
+			x->no_diag = 1;
+		} else
+#endif
 		if (PSTATE == 0 && pre_level == 0) {
 			x->kind = X_EOF;
 		} else if (PSTATE == 0) {
@@ -707,6 +713,13 @@ static void check_outcome(cfg_t *ctx, int act_kind, int act_state, struct pstate
 #if defined(PREV_IS_O) && (KIND == K_DEPR || KIND == K_DEPRDROP)
 	/* the item that just ended assigned a deprecated option: whatever comes next (another item, a comment,
 	 * the closing brace of the section, the end of the input) the option is reported, and dropped if flagged so */
+#ifdef FORCE_OPT
+	if (T == -1) {
+		/* materialising the declared default of a deprecated option is not a use of it */
+		V_ASSERT(n_err == 0, "[C01] the declared default of a deprecated option is set up silently");
+		V_ASSERT(O->nvalues == pre_nvalues, "[C01] an unmentioned deprecated option keeps its declared default (drop applies to assignments in the text)");
+	} else
+#endif
 	if (T != 0 && !(T == '}' && pre_level == 0) && !(T == -1 && pre_level > 0)) { /* not where the text is rejected anyway */
 		V_ASSERT(n_err >= 1, "[C01] a deprecated option that was assigned is reported");
 		if (O->flags & CFGF_DROP)
